@@ -84,6 +84,9 @@ func c11Check(c c11Case) string {
 		// than that means a goroutine went on reading the caller's input after the call had returned
 		return fmt.Sprintf("%sthe call returned (%s) but %d more bytes were read from the caller's reader afterwards", head, errOrNil(res), res.LateReadBytes)
 	}
+	if c.Faults.ReaderBlock > 0 && res.Err.Nil && c.Entry == "" {
+		return fmt.Sprintf("%sthe input went quiet after %d bytes without ending, the context was cancelled, and the call returned nil", head, c.Faults.ReaderBlock-1)
+	}
 	if res.CloseDuringRead {
 		return head + "the caller's reader (an io.Closer) had Close called on it while one of its Reads was still pending in another goroutine: unsynchronised concurrent use of the caller's reader"
 	}
@@ -180,6 +183,9 @@ func c11Record(col *collector, c c11Case) {
 	}
 	if c.Inodes > 0 {
 		cl = append(cl, "fault:file-system-full")
+	}
+	if c.Faults.ReaderBlock > 0 {
+		cl = append(cl, "input-goes-quiet(idle-pipe)")
 	}
 	for p := range c.Sched.Hook {
 		cl = append(cl, "hook:"+p)
@@ -289,7 +295,19 @@ func c11Gen(race bool) *rapid.Generator[c11Case] {
 				c.Cancel = ops.Cancel{Kind: "atCallback", K: rapid.IntRange(0, 3*nroots).Draw(t, "atCb")}
 			}
 		}
-		if rapid.IntRange(0, 9).Draw(t, "fromRoot") == 0 && (op == "text" || op == "json" || op == "walk" || op == "dryrun") {
+		if rapid.IntRange(0, 5).Draw(t, "idleReader") == 0 {
+			// the input goes quiet after k bytes (an idle pipe, a terminal): the Read in flight cannot be interrupted, but
+			// cancelling the context must still end the call ("every instant at which the context is cancelled")
+			c.Faults.ReaderFailAt = -1
+			c.Faults.ReaderBlock = 1 + rapid.IntRange(0, len(c.Doc)).Draw(t, "quietAfter")
+			c.Faults.IOKind = rapid.SampledFrom([]int{0, 0, 5}).Draw(t, "idleIoKind")
+			switch c.Cancel.Kind {
+			case "pre", "deadline", "afterDelay", "customctx-cancel":
+			default:
+				c.Cancel = ops.Cancel{Kind: "afterDelay", K: rapid.SampledFrom([]int{0, 50, 1000, 20000}).Draw(t, "idleDelayUs")}
+			}
+		}
+		if rapid.IntRange(0, 9).Draw(t, "fromRoot") == 0 && c.Faults.ReaderBlock == 0 && (op == "text" || op == "json" || op == "walk" || op == "dryrun") {
 			c.Entry = "root"
 			if op == "dryrun" {
 				c.Op = "mkdir"
